@@ -26,8 +26,16 @@ def error_blocks(b):
                     and rv.get("variant") == "Err" and ends(rv.get("adt"), "Result"):
                 out.add(bb)
         t = b.term(bb)
-        if t["k"] == "call" and callee_method(t) == "from_residual" and t["dest"]["l"] == 0:
-            out.add(bb)
+        if t["k"] == "call" and callee_method(t) == "from_residual" and not t["dest"]["p"]:
+            if t["dest"]["l"] == 0:
+                out.add(bb)
+            else:
+                # the error return of an inlined helper: its result local is only handed on to the caller's own return
+                # value (or to the caller's `?`)
+                from .util import final_uses
+                uses = final_uses(b, t["dest"]["l"])
+                if uses and all(k == "ret" or (k == "callarg" and callee_method(d[0]) == "branch") for k, _bb, d in uses):
+                    out.add(bb)
     return out
 
 
